@@ -69,6 +69,7 @@ class AbstractDiscreteTimeOnlineInterpreter(AbstractOnlineInterpreter, DiscreteT
             var_value = data[1]
             if data[0] in self.ast.free_vars:
                 self.ast.var_object_dict[var_name] = var_value
+                self.ast.inputs[var_name] = var_value
                 if var_name in self.online_operator_dict:
                     self.online_operator_dict[var_name].sample = var_value
 
